@@ -11,6 +11,7 @@ import (
 	podENITypes "github.com/AliyunContainerService/terway/pkg/apis/network.alibabacloud.com/v1beta1"
 	"github.com/AliyunContainerService/terway/types/daemon"
 	"golang.org/x/time/rate"
+	"k8s.io/apimachinery/pkg/runtime"
 	"k8s.io/client-go/tools/record"
 	"sigs.k8s.io/controller-runtime/pkg/client"
 	"sigs.k8s.io/controller-runtime/pkg/reconcile"
@@ -106,3 +107,27 @@ func (l *Local) VerifStateLocked() VerifLocalState {
 
 // VerifRequestPtr is the identity VerifReq.Ptr reports for a request.
 func VerifRequestPtr(r *LocalIPRequest) uintptr { return uintptr(unsafe.Pointer(r)) }
+
+// ---- node-agent reporting (CRDV2) over an injected client ----
+
+// VerifNewCRDV2 builds the CRD-mode resource manager without a controller manager.
+func VerifNewCRDV2(c client.Client, scheme *runtime.Scheme, nodeName string) *CRDV2 {
+	return &CRDV2{client: c, scheme: scheme, nodeName: nodeName, deletedPods: map[string]*podENITypes.RuntimePodStatus{}}
+}
+
+// VerifSyncNodeRuntime runs one pass of the job that reports processed CNI DELs.
+func (r *CRDV2) VerifSyncNodeRuntime(ctx context.Context) error { return r.syncNodeRuntime(ctx) }
+
+// VerifSyncDeletedPods runs one pass of the job that reconciles the NodeRuntime with the node's IPAM record.
+func (r *CRDV2) VerifSyncDeletedPods(ctx context.Context) error { return r.syncDeletedPods(ctx) }
+
+// VerifPendingDeleted lists the pod UIDs whose DEL is recorded but not reported yet.
+func (r *CRDV2) VerifPendingDeleted() []string {
+	r.lock.Lock()
+	defer r.lock.Unlock()
+	var out []string
+	for k := range r.deletedPods {
+		out = append(out, k)
+	}
+	return out
+}
